@@ -55,6 +55,10 @@ def _annotate(tree, module):
             else:
                 child._func = node._func
                 child._class = node._class
+            if isinstance(child, (ast.FunctionDef, ast.AsyncFunctionDef, ast.Lambda)) and child.args.posonlyargs:
+                # def f(self, x, /, *a): positional-only parameters are parameters like the others for what this analysis follows
+                child.args.args = list(child.args.posonlyargs) + list(child.args.args)
+                child.args.posonlyargs = []
             if isinstance(node, ast.ClassDef) and isinstance(child, (ast.FunctionDef, ast.AsyncFunctionDef)) and child.name.startswith("__") and not child.name.endswith("__"):
                 child.name = "_" + node.name.lstrip("_") + child.name   # (a private method is stored under its mangled name)
             if isinstance(child, ast.Attribute) and child._class is not None and child.attr.startswith("__") and not child.attr.endswith("__"):
